@@ -125,6 +125,29 @@ Proof. exact (index_go t). Qed.
 Lemma link_index_designer t : index (bytes_of_string C20_Gen.flagDesigner) (upper_ascii t) = first_occ w_designer t.
 Proof. exact (index_designer t). Qed.
 
+(* NewConfig's body: one composite literal &Config{NamingFormat: format}, no package-level state *)
+Lemma link_to_sop o : to_sop o = sop_of o.
+Proof. destruct o; reflexivity. Qed.
+
+(* `meets` decides `agrees` on what the driver can observe *)
+Lemma meets_agrees r e o : agrees r e -> res_matches r o = true -> meets e o = true.
+Proof.
+  destruct e as [s| |]; cbn [agrees meets].
+  - intros -> H. destruct o; cbn in *; try discriminate. exact H.
+  - intros [k ->] H. destruct o; cbn in *; try discriminate. reflexivity.
+  - intros -> H. destruct o as [|k m|]; [discriminate H| |discriminate H].
+    change (Nat.eqb err_handle k = true) in H. apply Nat.eqb_eq in H. subst k. reflexivity.
+Qed.
+
+(* a history on which the model reproduces the observations also passes the Spec's history check *)
+Lemma history_model_implies_spec U ops os :
+  all2 res_matches (hrun U [] ops) os = true -> all2 meets (expected_all U [] (map to_sop ops)) os = true.
+Proof.
+  rewrite (map_ext _ _ link_to_sop). pose proof (hrun_refines U ops [] [] hinv_nil) as F. revert os.
+  induction F as [|r e rs es Ha _ IH]; intros [|o os]; cbn [all2]; try discriminate; [reflexivity|].
+  intro H. apply andb_true_iff in H as [H1 H2]. rewrite (meets_agrees _ _ _ Ha H1). apply IH. exact H2.
+Qed.
+
 (* ---- soundness of the executable checkers used by Exec.spec_ok ---- *)
 Lemma obs_eqb_eq a b : obs_eqb a b = true -> a = b.
 Proof.
